@@ -413,6 +413,31 @@ def adversarial(rec, rng, cid):
               "without separators)" % (key, a, b), case)
 
 
+def adversarial_settings(rec, rng, cid):
+    """two scalar settings whose float renderings concatenate identically
+    (whatever their order in the hashed list): 0.5 | 11.0 and 0.51 | 1.0"""
+    spec, idnt = base_curve(rng)
+    ctx = settings_context(rng, spec)
+    ctx.pop("optimal_fit_edelta", None)
+    p_, q_, r_ = (int(rng.integers(1, 10)) for _ in range(3))
+    a = (float("0.%d" % p_), float("%d%d.0" % (q_, r_)))
+    b = (float("0.%d%d" % (p_, q_)), float("%d.0" % r_))
+    if str(a[0]) + str(a[1]) != str(b[0]) + str(b[1]) or a == b:
+        return
+    k1, k2 = [("weight_cp", "gcf_k"), ("gcf_k", "weight_cp")][
+        int(rng.integers(2))]
+    ha = H(idnt, **dict(ctx, **{k1: a[0], k2: a[1]}))
+    hb = H(idnt, **dict(ctx, **{k1: b[0], k2: b[1]}))
+    case = {"id": cid, "class": "adversarial-settings", "keys": [k1, k2],
+            "a": a, "b": b}
+    rec.evaluated(dg=case)
+    rec.event("adversarial pairs")
+    rec.event("adversarial pairs across two settings")
+    rec.check(ha != hb, "collision/settings-concatenation/%s+%s" % (k1, k2),
+              "%s, %s = %r and %r hash equal (the renderings of the two "
+              "settings concatenate identically)" % (k1, k2, a, b), case)
+
+
 def tie_to_fit(rec, rng, cid):
     spec, idnt = base_curve(rng)
     ctx = settings_context(rng, spec)
@@ -533,6 +558,9 @@ def run_shard(rec, tier, seed, shard, nshards):
                 hashes.append(r[0])
         elif m == 18:
             adversarial(rec, rng, [shard, i])
+            adversarial_settings(rec, core.case_rng(seed, ID, shard,
+                                                    2 * 10 ** 6 + i),
+                                 [shard, 2 * 10 ** 6 + i])
         else:
             tie_to_fit(rec, rng, [shard, i])
             fitted_object(rec, core.case_rng(seed, ID, shard, 10 ** 6 + i),
@@ -547,5 +575,6 @@ def replay(rec, case):
     rng = core.case_rng(case["seed"], ID, cid[0], cid[1])
     {"must-differ": pair_differ, "must-be-equal": pair_equal,
      "adversarial": adversarial, "tie": tie_to_fit,
+     "adversarial-settings": adversarial_settings,
      "fitted-object": fitted_object}.get(
         c.get("class"), pair_differ)(rec, rng, cid)
